@@ -10,6 +10,7 @@ Per check:
 import itertools, json, os, random, time
 from vlib import *
 from macro_scripts import *
+import replay as _rp
 
 SYS_MC = {
     "C01": dict(layout="c01", keys={"k1", "k2", "k3"}, lookups=3),
@@ -256,6 +257,10 @@ def run_macro_check(pid, tier, seed, wd):
     for ln in mine[:10]:
         tp = os.path.join(REPLAYS, "%s_macro_%d_%d.ndjson" % (pid, seed, ln))
         inner = extract_trace(tr, ln, tp)
+        tid = json.loads(open(tp).readline()).get("trace")
+        sc = next((x for x in scripts if x["id"] == tid), None)
+        if sc:
+            _rp.sidecar(tp, "macro", {"script": sc})
         violations.append(("monitor of %s false on line %d of a macro-level history" % (pid, inner), tp))
     for (i, l) in tv["drifts"][:10]:
         drift_notes.append("SPEC-DRIFT macro trace line=%d (%s)" % (l, i))
